@@ -197,6 +197,38 @@ def k_c04(ctx):
     run_k(ctx, K.corpus_ledgers(), what, oracle=oracle_c04)
     cases = gen_cases(ctx, ctx.n(4000, 60000), ["mixed", "plain", "events", "noevents"])
     run_k(ctx, cases, what, oracle=oracle_c04)
+    # foreign currency, each amount in its own: the same arithmetic on the amounts converted at the HMRC rate of their own month
+    # (rates read from the HMRC files themselves, not from the code)
+    from . import props_fx
+    xt = props_fx.xml_table()
+    def to_gbp_lines(ls):
+        out = []
+        for l in ls:
+            def cv(v, c):
+                if v is None or c == "GBP": return v
+                r = xt.get((c, l.date.year, l.date.month))
+                if not r or len(r) != 1: raise KeyError((c, l.date))
+                q = F(v) / next(iter(r)); return "%d/%d" % (q.numerator, q.denominator)
+            out.append(l.copy(v=cv(l.v, l.vcur), vcur="GBP", x=cv(l.x, l.xcur), xcur="GBP"))
+        return out
+    fcases = {}
+    for i in range(ctx.n(600, 8000)):
+        base = gen.gen_ledger(ctx.rng, events=0.1, splits=0.05, dividends=0.2, max_year=2025)
+        base = [l.copy(date=max(l.date, datetime.date(2015, 1, 1))) for l in base]
+        fl = props_fx.foreignize(ctx.rng, base)
+        try: fcases["fx%d" % i] = (fl, to_gbp_lines(fl))
+        except KeyError: continue
+    fr = K.code_only({k: v[0] for k, v in fcases.items()})
+    for cid, (fl, gl) in fcases.items():
+        ctx.evaluations += 1; rr = fr[cid]
+        ctx.count("foreign_ledger_outcome", "ok" if rr.get("ok") else rr.get("stage"))
+        if not rr.get("ok"): continue
+        cr = compare.canon_rust(rr["report"])
+        fails = oracle_c04(gl, cr, rr)
+        if fails:
+            ctx.disagreements_checked += 1
+            ctx.violation("oracle on the code fails (%s) on a foreign-currency ledger: %s" % (fails[0][0], fails[0][1:]),
+                          {"input_dsl": ledger.render(fl), "gbp_equivalent": ledger.render(gl), "fails": [list(map(str, f)) for f in fails[:6]], "code": rr, "case_id": cid}, found_input=True)
     # "in every report": the same arithmetic in reports filtered to one tax year
     byyear = defaultdict(dict)
     for cid, lines in list(K.corpus_ledgers().items()) + list(cases.items())[:ctx.n(1200, 20000)]:
